@@ -15,9 +15,25 @@ package lossy
 //@   trusted
 //@   modifies nothing
 //
+// The ALPH header byte is obeyed: compression 0 = the payload bytes are the
+// (still filtered) plane, compression 1 = VP8L, anything else is an error; the
+// inverse filter applied is the one named in bits 2..3; an unfiltered raw
+// plane is returned byte for byte. The dimensions are those of a VP8 frame
+// (14 bits): for absurd values whose product wraps around 2^64 the area guard
+// can be fooled (DecodeAlpha(data, 1060738449734107137, 8253550004598210587)
+// panics; found by the solver, replayed), but the only caller passes the
+// dimensions DecodeFrame returned.
 //@ func DecodeAlpha
-//@   property C16 C05
+//@   property C16 C05 C04 C07
+//@   requires width <= 16384 && height <= 16384
+//@   abstract alphaUnfilterHorizontal, alphaUnfilterVertical, alphaUnfilterGradient
+//@   modifies nothing
 //@   ensures result1 == nil ==> result0 != nil
+//@   ensures result1 == nil ==> len(data) >= 1 && old(data[0])&3 <= 1 && uint64(len(result0)) == uint64(width)*uint64(height)
+//@   ensures result1 == nil && old(data[0])&3 == 0 && (old(data[0])>>2)&3 == 0 ==> forall k int :: 0 <= k && k < len(result0) ==> result0[k] == old(data[1+k])
+//@   callsite alphaUnfilterHorizontal: assert (data[0]>>2)&3 == 1 && arg1 == width && arg2 == height
+//@   callsite alphaUnfilterVertical: assert (data[0]>>2)&3 == 2 && arg1 == width && arg2 == height
+//@   callsite alphaUnfilterGradient: assert (data[0]>>2)&3 == 3 && arg1 == width && arg2 == height
 //
 // ---- C04 / C11: per-segment loop-filter strengths ----
 //
